@@ -532,7 +532,7 @@ def _t4_children(S):
     }
 
 
-@contract(CellConversion.pot_to_t4_cell, props=['C01', 'C08', 'C13'], name='CellConversion.pot_to_t4_cell')
+@contract(CellConversion.pot_to_t4_cell, props=['C01', 'C08', 'C13', 'C05'], name='CellConversion.pot_to_t4_cell')
 class _PotToT4:
     """The volume returned for a tree denotes the tree: vol_den(dic, result) == den(tree), where sub-nodes are opaque
     (the recursive call returns a fresh volume that denotes the sub-node: induction hypothesis) and a CellRef is
